@@ -161,4 +161,48 @@ def C07.ok (price : Nat) (u : Update) (out : UpdOut) (pre post : List Order) : B
 def C15.ok (price : Nat) (s : Stats) (nAdds nRemoved sumExec : Nat) : Bool :=
   s.added == nAdds && s.removed == nRemoved && s.qty == sumExec && s.value == price * sumExec
 
+/-! ## C19 — the exported order queue is a FIFO with lookup and removal by id
+
+The abstract queue the property describes: the orders in push order. -/
+
+abbrev Fifo := List Order
+
+def Fifo.push (f : Fifo) (o : Order) : Fifo := f ++ [o]
+
+def Fifo.pop : Fifo → Option Order × Fifo
+  | [] => (none, [])
+  | o :: rest => (some o, rest)
+
+def Fifo.find (f : Fifo) (id : Id) : Option Order := lookup id f
+
+def Fifo.removeAll (id : Id) : Fifo → Fifo
+  | [] => []
+  | o :: rest => if o.id = id then Fifo.removeAll id rest else o :: Fifo.removeAll id rest
+
+def Fifo.remove (f : Fifo) (id : Id) : Option Order × Fifo := (lookup id f, Fifo.removeAll id f)
+
+/-! ## C04 — time priority, as a local comparison of hand-out orders
+
+`before` / `after`: the order in which pops would hand out the resting orders before and after one
+`match_order` call. The property's rules: an order that is still there with its hidden quantity
+untouched (partially filled, or not reached) keeps its place; an order whose display was
+replenished from hidden moves to the back; an order that left is gone. -/
+
+def hidOf (id : Id) (l : List Order) : Option Nat := (lookup id l).map (·.hid)
+
+/-- ids that must keep their relative place, in order -/
+def stayIds (before after : List Order) : List Id :=
+  (before.filter (fun x => hidOf x.id after == some x.hid)).map (·.id)
+
+/-- ids that were replenished and must be behind all the others -/
+def backIds (before after : List Order) : List Id :=
+  (before.filter (fun x => match hidOf x.id after with | some h => h != x.hid | none => false)).map (·.id)
+
+/-- `after` = the stayers in their old order, followed by the replenished ones in some order -/
+def C04.matchOrderOk (before after : List Order) : Bool :=
+  let ids := after.map (·.id)
+  let s := stayIds before after
+  let b := backIds before after
+  ids.take s.length == s && (ids.drop s.length).all (fun i => b.contains i) && ids.length == s.length + b.length
+
 end PLV
